@@ -14,7 +14,10 @@ def mk_table(case):
     data = {"name": np.array(names) if uni else (np.array(names, dtype=object) if names else np.array([], dtype=object))}
     for k, v in case["cols"]:
         data[k] = np.array(v, dtype=np.int64)
-    return xd.Table(data, col_names=["name"] + [k for k, _ in case["cols"]], index="name", cast_strings=not uni)
+    for k, v in case.get("scols", []):          # further string columns (candidates for t._index = ...)
+        data[k] = np.array(v, dtype=object)
+    return xd.Table(data, col_names=["name"] + [k for k, _ in case["cols"]] + [k for k, _ in case.get("scols", [])],
+                    index="name", cast_strings=not uni)
 
 
 def mk_row(r):
@@ -112,6 +115,9 @@ def derive(t, op):
         return xd.Table.concatenate([t] + [t.rows[mk_sel(s)] for s in op[1]])
     if kind == "d_t":
         return t._t
+    if kind == "d_repoint":
+        t._index = op[1]            # another existing string column becomes the index (attribute assignment)
+        return t
     if kind == "d_reindex":
         # the index column is removed and a column with the index name is assigned again
         idx = t._index
